@@ -64,7 +64,7 @@ BkAtWrite ==
     \/ bk.pc = "FlushC" /\ bk.queue # <<>> /\ Hash(bk.buf) \notin bk.know
     \/ bk.pc = "WriteHunk" /\ (bk.pending \o bk.finished) # <<>>
 GcAtWrite ==
-    \/ gc.pc \in {"WriteLock", "Release", "Done", "Idle"}
+    \/ gc.pc \in {"BreakLock", "WriteLock", "Release", "Done", "Idle"}
     \/ gc.pc = "DeleteBands" /\ gc.todel # {}
     \/ gc.pc = "DeleteBlocks" /\ gc.unref # {}
 
@@ -158,15 +158,17 @@ Other ==
                  /\ scen' = r.id /\ saved' = <<>> /\ follow' = "" /\ UNCHANGED <<drift, nchecked, nfaults>>
             [] r.ev = "src" ->
                  /\ src' = TreeOfNodes(r.tree) /\ UNCHANGED <<fs, bk, gc, snap, partial, cnt, scen, saved, follow, drift, nchecked, nfaults>>
-            [] r.ev = "call" /\ r.fn = "backup" /\ r.excl = <<>> /\ ~r.own_tree /\ follow = "" /\ r.owner ->
+            \* (a backup with exclusions is the reference program run on the tree without the excluded
+            \* entries: r.match lists the paths a pattern matches, a fact measured with the glob library)
+            [] r.ev = "call" /\ r.fn = "backup" /\ ~r.own_tree /\ follow = "" /\ r.owner ->
                  /\ bk' = [pc |-> "CheckLock", o |-> [H |-> r.H, M |-> r.M, S |-> r.S], band |-> -1, basis |-> <<>>, know |-> {},
                            pending |-> <<>>, finished |-> <<>>, buf |-> <<>>, queue |-> <<>>,
-                           hunkNo |-> 0, todo |-> SortPaths(DOMAIN src), cur |-> <<>>, addrs |-> <<>>, buf2 |-> <<>>,
-                           ret |-> "", errors |-> 0, res |-> "", faulty |-> FALSE, nblk |-> 0, want |-> src]
+                           hunkNo |-> 0, todo |-> SortPaths(DOMAIN TreeSel(src, Root, SeqRange(r.match))), cur |-> <<>>, addrs |-> <<>>, buf2 |-> <<>>,
+                           ret |-> "", errors |-> 0, res |-> "", faulty |-> FALSE, nblk |-> 0, want |-> TreeSel(src, Root, SeqRange(r.match))]
                  /\ follow' = "bk"
                  /\ UNCHANGED <<fs, src, gc, snap, partial, cnt, scen, saved, drift, nchecked, nfaults>>
             [] r.ev = "call" /\ r.fn = "delete" /\ ~r.injected /\ follow = "" /\ SeqRange(r.bands) \subseteq Bands(fs) ->
-                 /\ gc' = [pc |-> "ListBands", del |-> SeqRange(r.bands), dry |-> r.dry, last |-> -1, keep |-> {}, toread |-> {},
+                 /\ gc' = [pc |-> IF r.brk /\ fs.lock THEN "BreakLock" ELSE "ListBands", del |-> SeqRange(r.bands), dry |-> r.dry, last |-> -1, keep |-> {}, toread |-> {},
                            referenced |-> {}, unref |-> {}, todel |-> {}, res |-> "", fs0 |-> fs, faulty |-> FALSE]
                  /\ follow' = "gc"
                  /\ UNCHANGED <<fs, src, bk, snap, partial, cnt, scen, saved, drift, nchecked, nfaults>>
